@@ -105,7 +105,7 @@ CLAIMS = {
         text="For every assignment of producer nilabilities (symbolic) to <=N triggers over two return statements the solver shows that FilterTriggersForErrorReturn drops value-result triggers iff the "
              "statement's error is definitely non-nil, drops the error trigger iff the error may be nil, rewrites kept consumers as the convention says and touches nothing else; and ObservePackage reports "
              "the nil value returned with a possibly-nil error through a contracted callee in all 720 trigger orders, whichever inference round incorporates the value result.",
-        note="Kernel level: package-level filtering. Source level (P08 / P08_Ok): for all 2028 programs of a (value, error) callee x caller family and all 672 of the (value, ok) form (two return statements, explicit or named results with bare returns, forwarding - pure or next to a return of the forwarder's own -, caller forms incl. overwritten error/ok variables and "
+        note="Kernel level: package-level filtering. Source level (P08 / P08_Ok): for all 2496 programs of a (value, error) callee x caller family and all 672 of the (value, ok) form (two return statements, explicit or named results with bare returns, forwarding - pure or next to a return of the forwarder's own -, caller forms incl. overwritten error/ok variables and "
              "sentinel comparisons) the real pipeline reports whenever the solver finds an execution that dereferences a nil result, and is silent for a convention-respecting callee with a proper check. "
              "Non-constant ok operands are outside. Found and fixed (two fix: commits): controlled triggers were forgotten between the two inference rounds; a bare return of named results in an ok-returning function was left out of the always-safe tracking (false negative). " + PIPE_NOTE,
     ),
